@@ -309,6 +309,19 @@ func c13Split(c *Ctx, f *ssa.Function) {
 						okG = true
 					}
 				}
+				// the same test written on the length: len(t) != 0, len(t) > 0, len(t) >= 1
+				if bo, ok := cond.(*ssa.BinOp); ok {
+					if lc, isC := bo.X.(*ssa.Call); isC && core.CalleeName(&lc.Call) == "builtin.len" && lc.Call.Args[0] == ssa.Value(trimmed) {
+						if k, isK := core.ConstInt(bo.Y); isK {
+							nonEmpty := (bo.Op == token.NEQ && k == 0 && truth) || (bo.Op == token.EQL && k == 0 && !truth) ||
+								(bo.Op == token.GTR && k == 0 && truth) || (bo.Op == token.GEQ && k == 1 && truth) ||
+								(bo.Op == token.LEQ && k == 0 && !truth) || (bo.Op == token.LSS && k == 1 && !truth)
+							if nonEmpty {
+								okG = true
+							}
+						}
+					}
+				}
 			}
 		}
 		c.check(okG, "C13.split.pipeline", f, "only non-empty trimmed pieces are kept", call, "filter(≠ \"\")")
